@@ -1,6 +1,6 @@
 (* C17 - metric grids place notes exactly on their pulses; Euclidean rhythms are even.
    Statements only; proofs in Proofs/MetricProofs.v.  Tatum units. *)
-From ML Require Import Model.Types Model.Metric Proofs.MetricProofs.
+From ML Require Import Model.Types Model.Metric Proofs.MetricProofs Proofs.MetricNoExpand.
 Open Scope Z_scope.
 
 (* applying a grid to a melody of m >= 1 notes: the result lasts exactly the number of tatums of the grid *)
@@ -17,6 +17,16 @@ Proof. exact apply_onsets. Qed.
 Theorem C17_apply_order : forall a m es j o k, apply_metric a m = Some es ->
   nth_error es j = Some (Some o, k) -> o = Z.of_nat j mod m.
 Proof. exact apply_sources. Qed.
+
+(* expand=False (the melody is not repeated; missing notes are rests): on a binary grid the result still lasts the grid ... *)
+Theorem C17_apply_no_expand_duration : forall a m es, binary a -> apply_metric_ne a m = Some es -> total_tatums es = Z.of_nat (length a).
+Proof. exact apply_ne_total. Qed.
+
+(* ... and an entry that carries a note carries the melody's note j mod m' (m' = the length after padding), a note of the melody
+   itself: never a padding rest, never a note the melody does not have *)
+Theorem C17_apply_no_expand_order : forall a m es j o k, apply_metric_ne a m = Some es ->
+  nth_error es j = Some (Some o, k) -> o = Z.of_nat j mod Z.max m (zsum a) /\ o < m.
+Proof. exact apply_ne_sources. Qed.
 
 (* a Euclidean rhythm has exactly the requested number of steps and pulses, starts on the downbeat, is binary:
    for ALL 1 <= pulses <= steps *)
